@@ -1,3 +1,4 @@
 /- aggregator: property theorems of C04 plus the source-tie theorems regenerated from the C++ -/
 import SmoothProps.C04
 import SmoothProps.SrcTie
+import SmoothProps.SrcTieImplC04
